@@ -221,7 +221,7 @@ def check_C14(ctx):
                 "A case is one input under all vectors, or one history.")
     q = ctx.quick()
     n = 150 if q else 1200
-    inputs = "fixtures,badnames,dwarfed:%d,gen:%d,gen:%d:stable" % (n // 5, n, n // 3)
+    inputs = "fixtures,badnames,endcheck,trailing,dwarfed:%d,gen:%d,gen:%d:stable" % (n // 5, n, n // 3)
     trace = os.path.join(ctx.work, "config.ndjson")
     wv(["trace-config", "inputs=" + inputs, "seed=%d" % ctx.seed, "out=" + trace])
     r, cases = judge_trace(ctx, "Trace_Config", trace, slim=lambda c: {"id": c["id"], "source": c["source"]})
@@ -470,7 +470,9 @@ def check_C15(ctx):
     # structure-only histories one step longer (no units, positions 0..1): complete trees whose last step is a branch;
     # the quick tier replays a seed-keyed stratified sample (half of it with dangling sequences attached later), the thorough tier all
     cfg = write_cfg("Enum_Builder_genS", BUILDER_CFG % (L + 1, BUILDER_STRUCT, "EmitStructCase"))
-    r = tlc("Builder", cfg=cfg, workers=8, cont=False, capture=("CASE", hist + ".c"), name="enum-builder-struct")
+    # (thorough: 1.8 * 10^7 states, 6 minutes on an idle machine; given more room than the default half hour because a busy
+    # machine has needed it)
+    r = tlc("Builder", cfg=cfg, workers=8 if q else 12, cont=False, capture=("CASE", hist + ".c"), name="enum-builder-struct", timeout=1800 if q else 5400)
     ctx.add_mc(r, "enum-structure-only-histories(len=%d)" % (L + 1))
     import zlib
     struct_all = [l for l in open(hist + ".c")]
